@@ -33,7 +33,7 @@ ID = "C20"
 RULE = (
     "Generated, kind 'chart': instance (all shapes, flexible, zero durations) "
     "x schedule prefix (history cut anywhere, incl. empty and complete) x xlim "
-    "(None or >= makespan) x colour map / job labels, through "
+    "(None or >= makespan) x colour map / job labels, optionally on a dispatcher that went through an earlier whole episode and a reset(), through "
     "plot_gantt_chart and GanttChartCreator.plot_gantt_chart: the PolyCollections "
     "of the Axes are read back - their multiset of (x0, x1, y0, y1, colour) "
     "must equal {(start, end, 1+10m, 10+10m, colour(job))} over scheduled "
@@ -46,7 +46,7 @@ RULE = (
     "the library's plotter records at its k-th call the schedule it is given "
     "and the bars of the figure it returns - exactly the first k operations; "
     "through create_gantt_chart_frames (recorded history, or a solver whose "
-    "own dispatch sequence is then the history), create_gantt_chart_gif and "
+    "own dispatch sequence is then the history), create_gantt_chart_gif (also with the history list kept from before a reset and a second recorded episode) and "
     "GanttChartCreator.create_gif (also for the second episode on the same "
     "dispatcher); (ii) frame ORDER in the written file: a "
     "custom plot function draws k = number of scheduled operations as a "
@@ -75,6 +75,7 @@ def strategy(tier):
             "cmap": st.sampled_from(["viridis", "tab10", "plasma"]),
             "labels": st.booleans(),
             "via_creator": st.booleans(),
+            "earlier": gen.pick([False, True, False]),
         }
     )
     short = st.fixed_dictionaries(
@@ -83,7 +84,7 @@ def strategy(tier):
             "inst": gen.instances(min_jobs=2, max_jobs=4, max_ops=4, max_machines=3, max_total=8),
             "history": gen.histories(max_len=10),
             "mode": gen.pick(
-                ["frames", "gif", "creator", "creator_second_episode", "solver", "order", "order_creator_history"]
+                ["frames", "gif", "gif_kept_history", "creator", "creator_second_episode", "solver", "order", "order_creator_history"]
             ),
             "rule": gen.pick(["most_work_remaining", "shortest_processing_time", "first_come_first_served", "most_operations_remaining"]),
         }
@@ -140,7 +141,7 @@ def fixed_cases(tier):
         "ints": True,
         "family": "fixed",
     }
-    for mode in ("frames", "gif", "creator", "creator_second_episode", "solver"):
+    for mode in ("frames", "gif", "gif_kept_history", "creator", "creator_second_episode", "solver"):
         cases.append(
             {"kind": "anim", "inst": small, "history": [[0, 0], [2, 0], [2, 0], [0, 0], [0, 0]], "mode": mode, "rule": "most_work_remaining"}
         )
@@ -164,9 +165,21 @@ def fixed_cases(tier):
 # ------------------------------------------------------------------ helpers
 
 
-def dispatch_history(inst, instance, history, cut=None):
+def dispatch_history(inst, instance, history, cut=None, earlier=False):
     d = Dispatcher(instance)
     hist = HistoryObserver(d)
+    if earlier:
+        # the dispatcher went through another whole episode (whose makespan
+        # was looked at) and a reset() before the history that is plotted
+        old = ref(inst)
+        while not old.complete():
+            j, p = old.ready()[-1]
+            m = inst["machines"][j][p][-1]
+            d.dispatch(instance.jobs[j][p], m)
+            old.apply(j, m)
+        d.schedule.makespan()
+        d.current_time()
+        d.reset()
     model = ref(inst)
     n = model.n_ops if cut is None else min(cut, model.n_ops)
     for k in range(n):
@@ -269,7 +282,11 @@ def check_chart_axes(ctx, ax, model, n_jobs, where, xlim=None, job_labels=None, 
 def chart_case(case, ctx):
     inst = case["inst"]
     instance = build_instance(inst)
-    d, _hist, model = dispatch_history(inst, instance, case["history"], case["cut"])
+    d, _hist, model = dispatch_history(
+        inst, instance, case["history"], case["cut"], earlier=case.get("earlier", False)
+    )
+    if case.get("earlier"):
+        ctx.label("chart_after_reset")
     n_jobs = len(inst["durations"])
     labels = [f"J{j}x" for j in range(n_jobs)] if case["labels"] else None
     try:
@@ -369,6 +386,18 @@ def anim_case(case, ctx):
         d, hist, model = dispatch_history(inst, instance, case["history"])
     n = model.n_ops
     history = list(hist.history)
+    if mode == "gif_kept_history":
+        # the caller keeps the recorded history of a first policy (the list
+        # object the observer exposes), resets the dispatcher and records a
+        # second policy before animating the first one
+        history = hist.history
+        d.reset()
+        other = ref(inst)
+        while not other.complete():
+            j, p = other.ready()[-1]
+            mm = inst["machines"][j][p][-1]
+            d.dispatch(instance.jobs[j][p], mm)
+            other.apply(j, mm)
     want_prefixes = [
         sorted((j, p, m, s, e) for (j, p, m, s, e) in model.order[:k]) for k in range(1, n + 1)
     ]
@@ -399,7 +428,7 @@ def anim_case(case, ctx):
                 mm = ms[b % len(ms)]
                 d.dispatch(instance.jobs[j][p], mm)
                 model.apply(j, mm)
-        if mode in ("frames", "gif", "creator", "creator_second_episode", "solver"):
+        if mode in ("frames", "gif", "gif_kept_history", "creator", "creator_second_episode", "solver"):
             records = []
             extras = []
             inner = get_partial_gantt_chart_plotter()
@@ -423,7 +452,7 @@ def anim_case(case, ctx):
                 create_gantt_chart_frames(frames_dir, instance, None, wrapper, len(history) % 2 == 0, history)
                 files = sorted(os.listdir(frames_dir))
                 ctx.check(len(files) == n, "frame-files", f"{len(files)} frame files for {n} operations")
-            elif mode == "gif":
+            elif mode in ("gif", "gif_kept_history"):
                 create_gantt_chart_gif(
                     instance,
                     gif_path=os.path.join(tmp, "out_1.gif"),
@@ -458,7 +487,7 @@ def anim_case(case, ctx):
                 ctx.check(makespan == mk, "frame-makespan", f"frame {k}: plotter was given makespan {makespan}, final makespan is {mk}")
                 if mk > 0:
                     ctx.check(xlim == (0.0, float(mk)), "frame-axis", f"frame {k}: x axis {xlim}, expected (0, {mk})")
-                if mode in ("frames", "gif") and k <= len(extras):
+                if mode in ("frames", "gif", "gif_kept_history") and k <= len(extras):
                     # the replay dispatcher (no filter) is in the state after k dispatches
                     mk_model = ref(inst)
                     for (j_, p_, m_, _s, _e) in model.order[:k]:
